@@ -9,6 +9,35 @@ from .probe import ProbeDied
 GAP = 0.012     # seconds between events that must get distinct, ordered timestamps
 
 
+def session_pids(sid):
+    out = []
+    for d in os.listdir("/proc"):
+        if not d.isdigit():
+            continue
+        try:
+            f = open("/proc/%s/stat" % d).read().rsplit(")", 1)[1].split()
+        except (OSError, IndexError):
+            continue
+        if f[0] != 'Z' and int(f[3]) == sid:
+            out.append(int(d))
+    return out
+
+
+def kill_session(sid):
+    """SIGKILL every process of the session until none is left (children may fork while we look)"""
+    import signal
+    for _ in range(50):
+        pids = session_pids(sid)
+        if not pids:
+            return
+        for pid in pids:
+            try:
+                os.kill(pid, signal.SIGKILL)
+            except OSError:
+                pass
+        time.sleep(0.005)
+
+
 class FakeProbe:
     """directory provider with the interface Sim expects from a probe"""
 
@@ -158,7 +187,30 @@ class RealSim(simrun.Sim):
         jflag = [] if getattr(self, 'omit_j', False) else ["-j", str(req.get('j', 1))]    # an explicit -j disables the jobserver client
         cmd = [self.ninja] + jflag + ["-k", str(k if k > 0 else 0)] + self.extra_args + list(req['targets'])
         time.sleep(GAP)
-        p = subprocess.run(cmd, cwd=self.dir, env=env, capture_output=True, timeout=120)
+        # own session: on a timeout everything ninja started can be found and killed; a build of these sizes takes well
+        # under a second, so not terminating within the limit is a result (hang or livelock), not a harness problem
+        limit = getattr(self, 'time_limit', 120)
+        pp = subprocess.Popen(cmd, cwd=self.dir, env=env, stdout=subprocess.PIPE, stderr=subprocess.PIPE, start_new_session=True)
+        try:
+            so, se = pp.communicate(timeout=limit)
+        except subprocess.TimeoutExpired:
+            state = ""
+            try:
+                state = open("/proc/%d/stat" % pp.pid).read().rsplit(")", 1)[1].split()[0]
+            except (OSError, IndexError):
+                pass
+            kill_session(pp.pid)
+            try:
+                so, se = pp.communicate(timeout=10)
+            except subprocess.TimeoutExpired:
+                so, se = b"", b""
+            raise ProbeDied({"timeout": True, "seconds": limit, "state_when_killed": state},
+                            "ninja did not terminate: " + " ".join(cmd[1:]) + "\n" + (so + se).decode("utf-8", "replace")[-600:], [])
+
+        class _P:
+            pass
+        p = _P()
+        p.returncode, p.stdout, p.stderr = pp.returncode, so, se
         out = (p.stdout + p.stderr).decode("utf-8", "replace")
         self.last_output = out
         if p.returncode < 0 or p.returncode in (134, 139):
